@@ -13,7 +13,7 @@ CFG = {'assumptions': ["every position, size and n stays below 2^31 - 64 (Go's i
         'bitmap.OfMany': 'bitmap.OfMany',
         'bitmap.Mask': 'bitmap.Mask[i], bitmap.RMask[i]',
         'bitmap.Bit': 'bitmap.MaskUpto[i], bitmap.RMaskUpto[i], bitmap.Bit[i], bitmap.RBit[i]',
-        'bitmap.Fmt': 'bitmap.Fmt on an integer / a slice of integers of every kind (and on non-integer types)',
+        'bitmap.Fmt/c12': 'bitmap.Fmt on an integer / a slice of integers of every kind (and on non-integer types)',
         'bitmap.Of/query': 'bitmap.Of, then IndexRank64+Rank64, IndexRank128+Rank128, NextOne, PrevOne on the result',
         'bitmap.Builder/query': 'a Builder history, then the same four queries on Builder.Words',
         'bitmap.OfMany/asOf': 'bitmap.OfMany(subs, sizes) compared with bitmap.Of(shifted concatenation, sum of sizes): only whether they agree',
